@@ -172,6 +172,33 @@ class Ctx:
                 self.failures.append(dict(what=what, replay=replay))
 
 
+def run_corpus(ctx: Ctx) -> None:
+    """Past failing / disagreeing requests (minimised by hand where useful) run first: model vs real code."""
+    p = VERIF / "corpus" / f"{ctx.pid}.txt"
+    if not p.exists():
+        return
+    import replay
+
+    reqs = [ln.strip() for ln in p.read_text().split("\n") if ln.strip() and not ln.startswith("#")]
+    real, kept = [], []
+    for q in reqs:
+        try:
+            a = replay.run_request(q)
+        except Exception as e:  # noqa: BLE001
+            a = "!!" + type(e).__name__
+        if a is not None:
+            kept.append(q)
+            real.append(a)
+    model = [m.replace("~", "") for m in run_driver(kept)]
+    for q, a, m in zip(kept, real, model):
+        ctx.corr_checked += 1
+        ctx.dist["corpus_requests"] += 1
+        if a != m:
+            ctx.dist["disagree:CORPUS"] += 1
+            if len(ctx.disagreements) < 20:
+                ctx.disagreements.append(dict(suite="CORPUS", request=q[:4000], impl=a[:4000], model=m[:4000]))
+
+
 def load_known(pid: str) -> list[dict]:
     p = VERIF / "known_findings.json"
     if not p.exists():
